@@ -113,6 +113,16 @@ class Ctx:
     # ---- pools ------------------------------------------------------------------------------
     def triple(self):
         r = self.rnd
+        reif = sorted(getattr(self.model, 'reifications', {}) or {})
+        if reif and r.random() < 0.35:
+            # prefer roles whose reifying concept is shared with other roles (table order then matters)
+            by_concept = {}
+            for role in reif:
+                for entry in self.model.reifications[role]:
+                    by_concept.setdefault(entry[0], []).append(role)
+            shared = sorted({ro for c, rs in by_concept.items() if len(set(rs)) > 1 for ro in rs})
+            role = r.choice(shared) if shared and r.random() < 0.6 else r.choice(reif)
+            return (r.choice(['a', 'b', 'v1']), role, r.choice(['a', 'b', 'c', '1', '"x"']))
         if self.graph.triples and r.random() < 0.75:
             return r.choice(self.graph.triples)
         return (r.choice(['a', 'b', 'v1', None]), r.choice(ROLES), r.choice(ATOMS[:20] + ['a', 'b']))
@@ -180,7 +190,8 @@ def value_for(ctx, target, pname, kind, sofar):
     if pname in ('triple', 'instance_triple', 'source_triple', 'target_triple'):
         if fname == 'Model.dereify' and 'reified' in sofar:
             tr = sofar['reified']
-            return tr[{'instance_triple': 0, 'source_triple': 1, 'target_triple': 2}[pname]]
+            # Model.reify returns (source triple, instance triple, target triple)
+            return tr[{'instance_triple': 1, 'source_triple': 0, 'target_triple': 2}[pname]]
         return ctx.triple()
     if pname == 'triples':
         ts = list(ctx.graph.triples)
@@ -338,13 +349,22 @@ def sweep(targets, n, seed, sidecar):
             try:
                 if target.endswith('Model.dereify'):
                     tr = ctx.triple()
+                    reif = getattr(ctx.model, 'reifications', {}) or {}
+                    if reif and rnd.random() < 0.8:
+                        by_concept = {}
+                        for role in sorted(reif):
+                            for entry in reif[role]:
+                                by_concept.setdefault(entry[0], []).append(role)
+                        shared = sorted({ro for cc, rs in by_concept.items() if len(set(rs)) > 1 for ro in rs})
+                        tr = ('a', rnd.choice(shared) if shared and rnd.random() < 0.7 else rnd.choice(sorted(reif)), 'b')
                     try:
                         sofar['reified'] = ctx.model.reify(tr) if rnd.random() < 0.8 else None
                         if sofar['reified'] is None:
                             sofar.pop('reified')
                         elif rnd.random() < 0.3:
                             a, b, c3 = sofar['reified']
-                            sofar['reified'] = rnd.choice([(a, c3, b), (b, a, c3)])
+                            sofar['reified'] = rnd.choice([(c3, b, a), (a, b, (c3[0], ':other', c3[2])),
+                                                           (a, (b[0], b[1], 'no-such-concept-91'), c3)])
                     except Exception:
                         sofar.pop('reified', None)
                 for pn, kind in c.params:
@@ -394,6 +414,28 @@ def sweep(targets, n, seed, sidecar):
                 exc = e
                 res = None
             stats['evaluated'] += 1
+            # raises(Exc, when=cond) clauses, judged on the entry state: (class name, condition or None)
+            rclauses = [(lab, v) for kind, lab, v in rec if kind == 'raises']
+            if exc is not None:
+                mro = [b.__name__ for b in type(exc).__mro__]
+                mine = [v for lab, v in rclauses if lab in mro]
+                if mine and all(v is False for v in mine) and not c.options.get('frames'):
+                    key = ('raises-when', type(exc).__name__)
+                    if key not in seen_fail:
+                        seen_fail.add(key)
+                        out['failures'].append({'target': target, 'clause': 'raises[%s]' % type(exc).__name__,
+                                                'detail': '%s raised although none of its stated conditions holds: %s'
+                                                          % (type(exc).__name__, str(exc)[:150]),
+                                                'args': [ser_arg(a) for a in entry], 'model': ctx.model_name})
+                    continue
+            elif any(v is True for lab, v in rclauses) and not c.options.get('frames'):
+                lab = [lab for lab, v in rclauses if v is True][0]
+                key = ('raises-missing', lab)
+                if key not in seen_fail:
+                    seen_fail.add(key)
+                    out['failures'].append({'target': target, 'clause': 'raises[%s]' % lab,
+                                            'detail': 'the stated condition for %s holds but the call returned' % lab,
+                                            'args': [ser_arg(a) for a in entry], 'model': ctx.model_name})
             if exc is not None:
                 if type(exc).__name__ in allowed or any(type(exc).__name__ == a or a in [b.__name__ for b in type(exc).__mro__] for a in allowed):
                     stats['raised_allowed'] += 1
